@@ -18,9 +18,10 @@ from . import extract, vrun
 from .rustlex import LostAnchor
 
 ROOT = os.path.dirname(os.path.dirname(os.path.abspath(__file__)))
-BUILD = os.path.join(ROOT, "build")
-EVID = os.path.join(ROOT, "evidence")
-REPLAYS = os.path.join(ROOT, "replays")
+OUT = os.environ.get("VERIF_OUT", ROOT)   # mutation self-tests redirect all outputs to a scratch dir
+BUILD = os.path.join(OUT, "build")
+EVID = os.path.join(OUT, "evidence")
+REPLAYS = os.path.join(OUT, "replays")
 KNOWN = os.path.join(ROOT, "KNOWN_FINDINGS.txt")
 
 TRUSTED_BASE_V = [
